@@ -88,6 +88,26 @@ def run(rep, tier, seed):
             fails = ['SCHC packet %s is exactly the id of a rule but decompress raised the rule-ID error' % s] if out == ('EXC', 'RuleIDMatchError') else []
             line = ' '.join(['S', 'cmdecompress', tb(s), 'N'] + rules_tokens(nrs))
             b.add('manager-decompress:id-only', line, out, parse_model_bits, fails, dict(layer='schc', op='cmdecompress', schc=s, rules=nrs), key=line)
+        for pkt_s in ([pkt] + [gen_packet(rnd, 'CoAP')[1] for _ in range(3)] if stack == 'CoAP' else []):
+            # a manager given its parser as an object (CoAP options by name: option numbers the library does not know get plain-string
+            # field ids): a packet no rule matches still raises the rule-match error -- building the error must not fail on such ids
+            sem_parser = parser_for('CoAP-semantic')
+            o_ = with_timeout(lambda: sem_parser.parse(Buffer(pkt_s, len(pkt_s) * 8)))
+            if o_[0] == 'OK':
+                pd_s = o_[1]
+                pd_s.direction = d
+                rules_s = gen_ruleset(rnd, pd_s, with_default=False, match_prob=0.0, kinds=('ns', 'map', 'lsb'))
+                nrs_s = [n_rule(r) for r in rules_s]
+                if not any(ref_rule_applies(dict(n_pdesc(pd_s), dir=DIRC[d]), nr) for nr in nrs_s):
+                    cm_s = ContextManager(Context(id='cs', description='', interface_id='i', parser_id='CoAP', ruleset=rules_s), parser=sem_parser)
+                    for strat in (MatchStrategy.FIRST, MatchStrategy.BEST):
+                        out = obs_bits(with_timeout(lambda: cm_s.compress(Buffer(pkt_s, len(pkt_s) * 8), direction=d, match_strategy=strat)))
+                        rep.count('manager-compress:semantic-parser-nomatch', key=('sem', i, pkt_s, strat.value))
+                        rep.oracle_evals += 1
+                        rep.hist['semantic-nomatch:ids:%s' % ('plain-string' if any(type(f.id) is str for f in pd_s.fields) else 'enum-only')] = rep.hist.get('semantic-nomatch:ids:%s' % ('plain-string' if any(type(f.id) is str for f in pd_s.fields) else 'enum-only'), 0) + 1
+                        if out != ('EXC', 'RuleDescriptorMatchError'):
+                            rep.violation('property', 'manager with the semantic CoAP parser, no rule matches: compress gave %s instead of the rule-match error' % (str(out)[:100],),
+                                          dict(layer='schc', op='cmcompress-semantic', packet=pkt_s.hex(), rules=nrs_s, direction=DIRC[d], strategy=strat.value))
         if i % 10 == 0:
             # a manager whose context has no rule yet: every SCHC packet matches no rule id, every packet matches no rule
             cm0 = ContextManager(Context(id='c0', description='', interface_id='i', parser_id=stack, ruleset=[]))
@@ -178,11 +198,17 @@ def run(rep, tier, seed):
             out = obs_bits(with_timeout(lambda: front.compress(buf, 'if0')))
             # model line: per context the parse outcome (pre-parsed) and the rules
             toks = ['S', 'schc', 'compress', tb(b2s(pkt)), str(nctx)]
-            for k in range(nctx):
+            chosen_lossless = None       # is the rule the front end must have chosen lossless FOR THIS PACKET (a rule that is lossless for the
+            for k in range(nctx):        # packet it was derived from may apply to another packet and be lossy for it: ignore / value-sent of another length)
                 po = impl_outcome(lambda: parser_for(stacks[k]).parse(Buffer(pkt, len(pkt) * 8)))
                 if po[0] == 'OK':
                     po[1].direction = DI.UP
                     toks += ['ok'] + pdesc_tokens(n_pdesc(po[1]))
+                    if chosen_lossless is None:
+                        npd_a = dict(n_pdesc(po[1]), dir='U')
+                        app = [nr for nr in nctxs[k] if ref_rule_applies(npd_a, nr)]
+                        if app:
+                            chosen_lossless = is_lossless_for(npd_a, app[0], 'U')
                 else:
                     toks += ['err']
                 toks += rules_tokens(nctxs[k])
@@ -201,7 +227,7 @@ def run(rep, tier, seed):
                 if o2 != ('OK', b2s(pkt)):
                     # pass-through of an uncompressed packet may be claimed by a context whose rule id is a prefix of the packet itself:
                     # the precondition "prefix-free across contexts" cannot exclude that; only report when the packet was really compressed
-                    if s != b2s(pkt):
+                    if s != b2s(pkt) and chosen_lossless:
                         fails.append('what the front end compressed does not decompress back: %s' % (str(o2)[:100],))
                 if o2[0] == 'EXC':
                     fails.append('front end decompress raised %s' % o2[1])
